@@ -11,7 +11,8 @@ Specification: spec/PathPolicy/PathPolicy.tla
            AllNested / PatCode (hop_pattern.rs: position sets, fixpoint for + and *).
 
 Pipeline
-  1. TLC exhaustive (MC_PathPolicy), four tables: every predicate shape x hop of a small domain; every
+  1. TLC exhaustive (MC_PathPolicy), five tables: every predicate shape x hop of a small domain; every
+     interface list of length <= 5 (thorough 6) over 2 ASes x 2 interface ids (hop extraction); every
      ACL with <= 3 entries over 4 predicates x every hop sequence up to length 4 (thorough 5) over 3 hops;
      every pattern (single expression of nesting depth <= 2, series of two expressions of depth <= 1,
      series of three predicates; thorough: depth 3 over 2 predicates) x the same hop sequences; every
@@ -58,6 +59,7 @@ CONSTANTS
   NACL = {nacl}
   TLEN = {tlen}
   NPRED = {npred}
+  ILEN = {ilen}
   GEN = {gen}
   CHUNK = {chunk}
 INVARIANTS {invs}
@@ -66,7 +68,7 @@ INVS = "PatConform PatRoundTrip AclConform TokRoundTrip Emit EmitMeta"
 
 
 def cfg(c, name, **kw):
-    d = dict(broken="", kind="pattern", depth=1, wlen=3, nacl=2, tlen=3, npred=4, gen="FALSE", chunk=32, invs=INVS)
+    d = dict(broken="", kind="pattern", depth=1, wlen=3, nacl=2, tlen=3, npred=4, ilen=3, gen="FALSE", chunk=32, invs=INVS)
     d.update(kw)
     p = os.path.join(c.work, name)
     open(p, "w").write(MC_TMPL.format(**d))
@@ -111,11 +113,11 @@ def run(c):
 
     # ---- 1. exhaustive tables + generation ------------------------------------------------------
     if thorough:
-        tables = [dict(kind="hopmatch", chunk=16), dict(kind="acl", nacl=3, wlen=5, chunk=32),
+        tables = [dict(kind="hopmatch", chunk=16), dict(kind="hops", ilen=6, chunk=64), dict(kind="acl", nacl=3, wlen=5, chunk=32),
                   dict(kind="pattern", depth=2, wlen=5, chunk=16), dict(kind="pattern", depth=3, wlen=4, npred=2, chunk=16),
                   dict(kind="tokens", tlen=6, wlen=3, chunk=256)]
     else:
-        tables = [dict(kind="hopmatch", chunk=16), dict(kind="acl", nacl=3, wlen=4, chunk=32),
+        tables = [dict(kind="hopmatch", chunk=16), dict(kind="hops", ilen=5, chunk=64), dict(kind="acl", nacl=3, wlen=4, chunk=32),
                   dict(kind="pattern", depth=2, wlen=4, chunk=16), dict(kind="tokens", tlen=5, wlen=3, chunk=256)]
     rows = []
     ncases = {}
